@@ -10,6 +10,7 @@ import (
 	"io"
 	"net"
 	"net/http"
+	"sync"
 	"strconv"
 	"time"
 
@@ -455,4 +456,38 @@ func VP_C09_transport_writers() {
 	vpThread("setup")
 	vpReach("done")
 	vpAssert(vpPeer.closed, "closed")
+}
+
+//vp:property C09 C06
+//vp:flag lockset
+//vp:bounds the legacy transport's outbound connection used as the tunnel uses it: the relay goroutine sends two small DATA packets (10 bytes each) and the packet loop sends a response, each inside the tunnel's write lock; then nothing happens for longer than any timer the transport may have armed
+//vp:assume lockset: the hijacked connection and its buffered writer allow one writer at a time; whatever runs from a timer is a logical thread of its own; a timer fires when every goroutine waits
+//vp:reach done
+func VP_C09_legacy_writers() {
+	vpThread("setup")
+	conn := &vpScriptConn{}
+	l, err := NewLegacy(&vpHijackW{conn: conn})
+	vpAssert(err == nil && l != nil, "hijacked")
+	if l == nil {
+		return
+	}
+	var writeMu sync.Mutex // stands for Tunnel.writeMu
+	send := func(b []byte) {
+		writeMu.Lock()
+		l.WritePacket(b)
+		writeMu.Unlock()
+	}
+	data := func(x byte) []byte { return []byte{0xA, 0, 0, 0, 10, 0, 0, 0, 1, 0, x}[:10] }
+	vpPar(func() {
+		vpThread("relay")
+		send(data(1))
+		send(data(2))
+	}, func() {
+		vpThread("loop")
+		send([]byte{0xD, 0, 0, 0, 8, 0, 0, 0})
+	})
+	vpThread("setup")
+	vpSleepLong()
+	vpReach("done")
+	vpAssert(len(conn.written) == 28, "everything-handed-to-the-transport-is-on-the-wire-once-the-line-has-been-idle")
 }
